@@ -525,6 +525,39 @@ func runC19(c *mc.Ctx) {
 		calls.Add(n)
 	})
 	c.Space("CoinSelect calls: list x selector x target 0..sum+1 x MaxInputs 0..n+1 x MinChange {0,1,2} (x MinAvgValueAge {0,1,2,4,7} for min-priority)", calls.Load())
+	// longer lists (6..10 coins; 12 on thorough) with structure: values and value-ages that are distinct
+	// (one tie order), ascending / descending / interleaved, with zero-value and zero-confirmation
+	// coins, and one list with a single tied pair; the full parameter grid for each
+	{
+		var longLists [][][2]int64
+		for _, n := range mc.Pick(c, []int{6, 8, 10}, []int{6, 7, 8, 9, 10, 12}) {
+			asc := make([][2]int64, n)
+			desc := make([][2]int64, n)
+			mix := make([][2]int64, n)
+			zer := make([][2]int64, n)
+			for i := 0; i < n; i++ {
+				asc[i] = [2]int64{int64(i + 1), int64(n - i)}       // value up, confirmations down
+				desc[i] = [2]int64{int64(n - i), int64(i%3 + 1)}    // value down
+				mix[i] = [2]int64{int64((i*5)%n + 1), int64(i + 1)} // permuted values (n coprime to 5 or not: still distinct mod n when gcd=1)
+				zer[i] = [2]int64{int64(i), int64(i % 2)}           // a zero-value coin and zero-confirmation coins
+			}
+			tie := append([][2]int64{}, asc...)
+			tie[n-1] = tie[0] // one tied pair (two tie orders)
+			longLists = append(longLists, asc, desc, mix, zer, tie)
+		}
+		var lcalls atomic.Int64
+		c.Space("structured longer coin lists (6..10(12) coins) x full parameter grid", int64(len(longLists)))
+		c.ParFor(int64(len(longLists)), func(w *mc.W, i int64) {
+			n := int64(0)
+			c19SelParams(longLists[i], func(cas c19Sel) {
+				w.State()
+				c19EvalSel(w, cas)
+				n++
+			})
+			lcalls.Add(n)
+		})
+		c.Note("calls_on_longer_lists", lcalls.Load())
+	}
 	c.Sample("sel", c19Sel{Sel: "minpriority", Coins: [][2]int64{{1, 0}, {2, 1}, {5, 2}}, Target: 3, MaxInputs: 2, MinChange: 1, MinAvg: 2})
 	c.Sample("sel", c19Sel{Sel: "minnumber", Coins: [][2]int64{{2, 0}, {2, 1}, {3, 2}}, Target: 5, MaxInputs: 2, MinChange: 0})
 
